@@ -34,6 +34,7 @@ import (
 	"cuelang.org/go/internal/core/adt"
 	"cuelang.org/go/internal/core/eval"
 	"cuelang.org/go/internal/cuedebug"
+	"cuelang.org/go/internal/simhook"
 	"cuelang.org/go/internal/value"
 )
 
@@ -81,7 +82,9 @@ func (c *Controller) runLoop() {
 				running = true
 				t.ctxt = eval.NewContext(value.ToInternal(t.v))
 
+				tok := simhook.Spawn("flow.runLoop")
 				go func(t *Task) {
+					simhook.Started("flow.runLoop", tok)
 					if err := t.r.Run(t, nil); err != nil {
 						t.err = errors.Promote(err, "task failed")
 					}
